@@ -1,7 +1,7 @@
 """F and V rules: value-file lifecycle."""
 import ast
 
-from .framework import rule, Ob, fmt_trace, sql_events, call_events, values_in, role_of, within
+from .framework import rule, Ob, fmt_trace, sql_events, call_events, values_in, role_of, within, deep_values
 from .model import AnalysisError, walk_shallow, dotted
 from .values import V
 from .rules_lock import core_entries, _is_row_write, _stmt_sig
@@ -164,7 +164,38 @@ def f2(ctx):
             ok_closed = False
             wit = fmt_trace(p.trace)
     loc = w.loc()
-    return [Ob('F2', 'writes-every-chunk', ok_all and n > 0, 'the writer does not write every chunk of the iterator '
+    # the chunk iterator can be consumed once: a path that starts a second pass over it after the first pass took
+    # something out (a retry after a failed write) stores only the tail of the value
+    once, wit1 = True, None
+    for p in ctx.paths(w, 'default'):
+        if p.kind == 'cut':
+            continue
+        passes = [e for e in p.trace if e.kind == 'FOR' and e.d['it'] == 1 and e.d['iter'].k == 'param']
+        if len({e.seq for e in passes}) > 1 and len({e.d['iter'] for e in passes}) == 1:
+            once, wit1 = False, fmt_trace(p.trace)
+    # same question on the syntax tree (loops are only unrolled once on paths): the chunk loop sits inside a retry
+    # loop, and a handler that encloses it can fall through to the next attempt
+    params = set(w.posparams)
+    for outer in ast.walk(w.node):
+        if not isinstance(outer, (ast.For, ast.While)):
+            continue
+        for t in ast.walk(outer):
+            if not isinstance(t, ast.Try) or t is outer:
+                continue
+            has_chunk_loop = any(isinstance(c, ast.For) and isinstance(c.iter, ast.Name) and c.iter.id in params
+                                 for b in t.body for c in ast.walk(b))
+            if not has_chunk_loop:
+                continue
+            for h in t.handlers:
+                always_raises = bool(h.body) and isinstance(h.body[-1], ast.Raise)
+                if not always_raises:
+                    once = False
+                    wit1 = wit1 or ['%s: the handler at line %d encloses the chunk loop and can continue the retry loop'
+                                    % (w.qual, h.lineno)]
+    extra = [Ob('F2', 'iterator-consumed-once', once, 'the writer can loop over the chunk iterator a second time after '
+                'a first pass already consumed chunks (e.g. retrying after an OSError during the copy): the retry '
+                'writes only what is left, and set() reports success for a truncated value', loc, wit1)]
+    return extra + [Ob('F2', 'writes-every-chunk', ok_all and n > 0, 'the writer does not write every chunk of the iterator '
                'unconditionally before returning: a truncated value file would be committed', loc, wit),
             Ob('F2', 'returns-byte-total', ok_size and n > 0, 'the writer does not return the sum of the chunk lengths',
                loc, wit),
@@ -319,6 +350,10 @@ def f4(ctx):
                 if not exit_i:
                     continue
                 cleaned = [e for e in tr if e.kind == 'CLEANUP' and e.d['val'] == fv and e.d['inst'] == inst]
+                # ... or handed to the removal queue the outermost transaction published on the object
+                cleaned += [e for e in tr if e.kind == 'MCALL' and e.d['name'] == 'append' and e.d.get('recv') is not None
+                            and e.d['recv'].k == 'selfattr' and e.d['recv'].a[1] in _queue_attrs(ctx)
+                            and e.d['args'] and e.d['args'][0] == fv]
                 removes = [e for e in tr if e.kind == 'CALL' and any(t.qual.endswith('Disk.remove') for t in
                            e.d['targets']) and e.d['args'] and e.d['args'][0] == fv]
                 inside = [e for e in removes if e.seq < exit_i[0]]
@@ -342,6 +377,21 @@ def f4(ctx):
         obs.append(Ob('F4', key, info['ok'], ('exempt: ' + role_of(info['ev'], F4_EXEMPT)) if ex else info['why'],
                       info['ev'].fn.loc(info['ev'].node), info['wit'], nontrivial=not ex))
     return obs
+
+
+def _queue_attrs(ctx):
+    """Attributes of the cache object that the transaction manager binds to its list of files to remove after
+    COMMIT (a removal queue published for nested operations)."""
+    cached = ctx.__dict__.get('_queue_attrs')
+    if cached is None:
+        cached = set()
+        mgr = ctx.prog.roles['txn_manager']
+        for p in ctx.paths(mgr, 'manager'):
+            for e in p.trace:
+                if e.kind == 'SETATTR' and e.d['base'].k == 'self' and e.d['val'].k == 'list':
+                    cached.add(e.d['attr'])
+        ctx.__dict__['_queue_attrs'] = cached
+    return cached
 
 
 # ---------------------------------------------------------------------- F5
@@ -373,10 +423,19 @@ def _removal_sites(ctx):
 
 def _classify_removal(f, ev, p):
     """Returns (class, ok_for_kill_safety, nested_safe, why)."""
-    if ev.fn.qual == 'core.Disk.remove':
-        return 'primitive', True, True, ''
+    if ev.fn.qual == 'core.Disk.remove' or (ev.fn.cls is not None and ev.fn.module == 'core' and ev.fn.cls != 'Cache'
+                                            and ev.fn.name.startswith('_') and not within(ev, 'core.Cache.check')
+                                            and f.cls == ev.fn.cls):
+        return 'primitive', True, True, ''     # Disk.remove and private helpers of the Disk classes
     if f.qual in F5_EXEMPT:
-        return 'exempt', True, True, ''
+        # ... provided it really is the temporary object's directory
+        a0 = ev.d['args'][0] if ev.d.get('args') else None
+        temp = a0 is not None and any(x.k in ('new', 'ret', 'ucall') for x in deep_values(a0, p.trace)) and not any(
+            x.k in ('self',) or (x.k == 'selfattr') or (x.k == 'prop' and x.a[0].k == 'self') for x in deep_values(a0, p.trace))
+        if temp:
+            return 'exempt', True, True, ''
+        return 'unclassified', False, False, 'removes a directory that is not the temporary object\'s (the deque\'s own ' \
+            'directory is deleted and the scratch one leaks)'
     tr = p.trace
     arg = ev.d['args'][0] if ev.d.get('args') else None
     if within(ev, 'core.Cache.check'):
